@@ -12,7 +12,8 @@ core.register("C15", "Props.C15", "theories/Props/C15.vo",
                "C15_counts_exact_restarts", "C15_stat_exact_restarts", "C15_restart_always_opens"])
 core.register("C16", "Props.C16", "theories/Props/C16.vo",
               ["C16_no_panic", "C16_write_no_panic", "C16_read_inverted_empty", "C16_index_limit_refused",
-               "C16_next_index_in_range_partial"])
+               "C16_next_index_in_range_partial", "C16_read_record_no_underflow", "C16_read_record_panic_iff",
+               "C16_run_reads_no_panic", "C16_read_items_no_panic_L2"])
 
 FINAL = ["F 1", "I", "G", "R 0 100000", "D", "Z", "K"]
 
